@@ -4,6 +4,7 @@ import (
 	"fmt"
 	"go/types"
 	"net/http"
+	"strconv"
 	"strings"
 
 	"golang.org/x/tools/go/ssa"
@@ -452,6 +453,34 @@ func init() {
 	intrinsics["strings.Repeat"] = func(m *Machine, fr *frame, a []Value) Value {
 		return ConcStr(strings.Repeat(m.argStr(a[0], "Repeat"), int(m.concInt(a[1].(*Term), "Repeat"))))
 	}
+
+	intrinsics["strings.Count"] = func(m *Machine, fr *frame, a []Value) Value {
+		s := a[0].(*Str)
+		sub := m.argStr(a[1], "strings.Count substr")
+		if s.conc {
+			return MkBV(64, uint64(strings.Count(s.s, sub)))
+		}
+		if len(sub) != 1 {
+			panic(unsupported{"strings.Count with multi-byte pattern on symbolic string"})
+		}
+		return intrinsics["internal/bytealg.CountString"](m, fr, []Value{s, MkBV(8, uint64(sub[0]))})
+	}
+	fmtInt := func(m *Machine, fr *frame, a []Value) Value {
+		t := a[0].(*Term)
+		if t.IsConst() {
+			base := 10
+			if len(a) > 1 {
+				base = int(m.concInt(a[1].(*Term), "FormatInt base"))
+			}
+			return ConcStr(strconv.FormatInt(t.SVal(), base))
+		}
+		// symbolic number: an opaque non-empty string (the digits are not modelled)
+		s := m.opaqueStr("itoa")
+		m.assume(BvCmp("bvuge", s.n, MkBV(64, 1)))
+		return s
+	}
+	intrinsics["strconv.FormatInt"] = fmtInt
+	intrinsics["strconv.Itoa"] = fmtInt
 
 	// ---------- net/http header helpers ----------
 	canon := func(m *Machine, fr *frame, a []Value) Value {
